@@ -43,6 +43,7 @@ func init() {
 		Rule{ID: "R01g", Doc: "the decoder is given exactly the received bytes, never the rest of a recycled buffer (shared with C01)", Floor: 8, AllVariants: true, Run: r01g},
 		Rule{ID: "R05g", Doc: "id-exhaustion thresholds of addQueueC, Status and deleteQueueC agree", Floor: 4, AllVariants: true, Run: r05g},
 		Rule{ID: "R20a", Doc: "a reply is released once (a doubly pooled message satisfies two exchanges; shared with C20)", Floor: 60, Run: r20a},
+		Rule{ID: "R20l", Doc: "a reply message that fails to decode is released by one owner only (pooled twice, the next two replies are decoded into one object; shared with C20)", Floor: 3, Run: r20l},
 	)
 	reg("C06", "Structural necessary conditions of clean reuse of one-at-a-time connections, decided for all paths: "+
 		"(R06a) the idle set is inserted only by releaseConn, only where its error parameter is nil and the transport is open, under the transport mutex, and removed only by getIdleConn before the connection is handed out; "+
@@ -55,6 +56,7 @@ func init() {
 		Rule{ID: "R06c", Doc: "exchangeConn success => complete reply consumed", Floor: 6, AllVariants: true, Run: r06c},
 		Rule{ID: "R06d", Doc: "caller never touches the connection after the hand-off", Floor: 1, AllVariants: true, Run: r06d},
 		Rule{ID: "R06e", Doc: "typestate of reusableConn", Floor: 3, AllVariants: true, Run: r06e},
+		Rule{ID: "R20a", Doc: "the framed query is not released before the last attempt that sends it (a retry after an early release sends another caller's bytes; shared with C20)", Floor: 60, Run: r20a},
 	)
 }
 
